@@ -2,6 +2,7 @@ import VM.Driver.SchemaParse
 import VM.Impl.SpecRules
 import VM.Impl.Defaults
 import VM.Impl.Simple
+import VM.Impl.SpecModel
 import VM.Driver.SchemaFam
 import VM.Generated.SwaggerSchema
 open Lean
@@ -115,33 +116,9 @@ def expandView (v : View) : View :=
   { v with ops := v.ops.map fun o =>
       { o with piParams := o.piParams.map ep, opParams := o.opParams.map ep, responses := o.responses.map (·.map er) } }
 
-partial def jvalToGoDeep : JVal → GoVal
-  | .null => .nil
-  | .bool b => .bool b
-  | .num n => .float 64 n
-  | .str s => .str s.toUTF8.toList
-  | .arr xs => .slice "interface" false (xs.map jvalToGoDeep)
-  | .obj kvs => .map false (kvs.map fun (k, x) => (k, jvalToGoDeep x))
+def jvalToGoDeep : JVal → GoVal := toGo
 
-def chainToSSchema : List ItemLevel → Option Simple.SSchema
-  | [] => none
-  | l :: rest => some (.mk l.base false false (chainToSSchema rest))
-
-def simpleRes (name : String) (r : Bool × Bool) : Res :=
-  if r.2 then { panicked := true } else if r.1 then {} else { errors := [{ code := 600, name := name, tag := "simple" }] }
-
-def mkJudges (O : Oracles) (defs : String → Option Schema) : Judges :=
-  let opts : Impl.Opts := { arrayMustHaveItems := true, objectArrayTypeCheck := true }
-  { schema := fun s path v => Impl.validateF Impl.Cfg.asIs opts O defs fuel s path v
-    param := fun p v => simpleRes p.name
-      (Simple.validate O .param (.mk p.base p.required p.allowEmpty (chainToSSchema p.items)) (jvalToGoDeep v))
-    header := fun h v => simpleRes h.name
-      (Simple.validate O .header (.mk h.base true false (chainToSSchema h.items)) (jvalToGoDeep v))
-    items := fun path _ rootFmt chain v =>
-      match chainToSSchema chain, jvalToGoDeep v with
-      | _, .nil => {}
-      | some ss, gv => simpleRes (path ++ ".0") (Simple.validateAux O false (ss.depth + 1) .items rootFmt ss gv)
-      | none, _ => {} }
+def mkJudges (O : Oracles) (defs : String → Option Schema) : Judges := modelJudges O defs
 
 /-- every `$ref` occurring anywhere in a schema -/
 partial def refsOf (s : Schema) : List String :=
@@ -213,6 +190,16 @@ def runSpecCase (j : Json) : Json :=
     ("examplesSpec", if hasCircularRefs v0.defs then Json.null else stageJson (valueStage DCfg.repaired J .exmp O v)),
     ("swagger", swaggerPass O (toJVal doc)),
     ("rulesStop", tagsJson (requiredDefinitionErrsStop O v.defs)),
+    -- the whole of Validate as one model: verdict and stage of the first error, per mode
+    ("whole", if hasCircularRefs v0.defs then Json.null else
+      let vr := { v with refsResolve := localRefsOk }
+      let st := modelStages O (toJVal doc) v0 vr
+      let one (cont : Bool) : Json :=
+        let r := (specValidate cont st).1
+        Json.mkObj [("valid", Json.bool r.errors.isEmpty), ("panic", Json.bool r.panicked),
+          ("nerr", Json.num (JsonNumber.fromNat r.errors.length)),
+          ("warnsEq", Json.bool ((specValidate cont st).2.errors.length == r.warnings.length))]
+      Json.mkObj [("cont", one true), ("stop", one false)]),
     ("localRefsOk", Json.bool localRefsOk),
     ("nops", Json.num (JsonNumber.fromNat v.ops.length))]
 
